@@ -816,12 +816,13 @@ def c14_directives(src, quick=True, timeout=300):
     for sname, op, cl in styles:
         for blank in ((0, 1) if quick else (0, 1, 2)):
             for indent in ((0,) if quick else (0, 2)):
-                for structured in (False, True):
-                    def build(sname=sname, op=op, cl=cl, blank=blank, indent=indent, structured=structured):
-                        T = tmpl.Template("c14a_%s_%d_%d_%d" % (sname, blank, indent, structured))
-                        T.hole("i0", indent, WSNN).lit(op).hole("g1", 1, WSNN)
+                for structured, gap in ((False, 1), (True, 1)) + (((False, 0), (True, 0)) if blank == 0 and indent == 0 else ()):
+                    def build(sname=sname, op=op, cl=cl, blank=blank, indent=indent, structured=structured, gap=gap):
+                        T = tmpl.Template("c14a_%s_%d_%d_%d_%d" % (sname, blank, indent, structured, gap))
+                        # gap 0: the directive sits tight against the comment markers (`//breadlog:ignore`, `/*breadlog:ignore*/`)
+                        T.hole("i0", indent, WSNN).lit(op).hole("g1", gap, WSNN)
                         cased(T, ign, "d")
-                        T.hole("g2", 1, WSNN).lit(cl).lit("\n")
+                        T.hole("g2", gap, WSNN).lit(cl).lit("\n")
                         for b in range(blank):
                             T.hole("b%d" % b, 1, WSNN).lit("\n")
                         T.hole("i1", indent, WSNN)
@@ -840,13 +841,13 @@ def c14_directives(src, quick=True, timeout=300):
                                                     "two statements on the next line, one after" % (op, cl, blank, indent)), {
                             "kind": "entries_exact", "structured": structured, "macros": INFO,
                             "positions": [T.marks["s3msg"] if not structured else T.marks["s3"] + 6]}
-                    case("c14-ignore-applies-%s-b%d-i%d-%s" % (sname, blank, indent, "s" if structured else "p"), build)
+                    case("c14-ignore-applies-%s-b%d-i%d-%s%s" % (sname, blank, indent, "s" if structured else "p", "" if gap else "-tight"), build)
 
-        def build_nokvp(sname=sname, op=op, cl=cl):
-            T = tmpl.Template("c14b_%s" % sname)
-            T.lit(op).hole("g1", 1, WSNN)
+        def build_nokvp(sname=sname, op=op, cl=cl, gap=1):
+            T = tmpl.Template("c14b_%s_%d" % (sname, gap))
+            T.lit(op).hole("g1", gap, WSNN)
             cased(T, nok, "d")
-            T.hole("g2", 1, WSNN).lit(cl).lit("\n")
+            T.hole("g2", gap, WSNN).lit(cl).lit("\n")
             statement(T, "s1", kv=True)
             T.lit("\n")
             statement(T, "s2", kv=True)
@@ -858,6 +859,7 @@ def c14_directives(src, quick=True, timeout=300):
             return t, cons, Not(good), "`%s <breadlog:no-kvp> %s` before a key-value statement, structured mode" % (op, cl), {
                 "kind": "entries_exact", "structured": True, "macros": INFO, "positions": [T.marks["s1msg"], T.marks["s2"] + 6]}
         case("c14-nokvp-applies-%s" % sname, build_nokvp)
+        case("c14-nokvp-applies-%s-tight" % sname, lambda sname=sname, op=op, cl=cl: build_nokvp(sname, op, cl, 0))
 
         def build_nokvp_multiline(sname=sname, op=op, cl=cl):
             # the statement's arguments are on later lines; a comment inside the argument list is not a directive for it
